@@ -89,8 +89,9 @@ CHECKS.update({
             'compared; typed programs are interpreted under a case map and compared with the reference evaluator.',
             'Trusted: as C04/C07. The prebuild clause is exercised by the prebuild part once the C05/C06 machinery is in place.',
             'DESIGN.md 3 C08'),
-    'C13': ('Hypothesis text / token soup / mutants + pumped inputs under an alarm (totality); printer-computed spans vs recorded positions for bodies with drawn layout',
-            'parse must return a tree or raise ParseException within 10 s on every generated input; for generated bodies every '
+    'C13': ('Hypothesis text / token soup / mutants + pumped inputs under an alarm (totality) with a position self-consistency predicate on every accepted text; printer-computed spans vs recorded positions for bodies with drawn layout',
+            'parse must return a tree or raise ParseException within 10 s on every generated input, and in every accepted text each statement / '
+            'expression node must name, by its recorded line and column, exactly the stretch of text it records, inside its enclosing node; for generated bodies every '
             'statement and expression node must carry exactly the start/end line and column and source substring that the '
             'harness printer computed from token offsets.',
             'Trusted: printer offsets (self-tested on hand-laid text); 10 s alarm as the bounded-time criterion.', 'DESIGN.md 3 C13'),
@@ -118,15 +119,17 @@ CHECKS.update({
 CHECKS.update({
     'C05': ('Hypothesis name-resolved bodies in every action home of a synthesised model; prebuild -> gen_text_action -> parse round trip (strict tree equality) + second-generation fixed point',
             'Generated bodies (all listed statement forms incl. invocations with parameters, array elements, enumerators, '
-            'constants) placed in function / bridge / operation / derived-attribute homes are prebuilt, regenerated as text and '
+            'constants of two groups, generate / create event statements with event data, reads of received event data) placed in function / bridge / '
+            'operation / derived-attribute / state-action / transition-action homes of a model with three state machines are prebuilt, regenerated as text and '
             'must parse to the same tree as the original; the generated text prebuilt in a fresh model must regenerate itself.',
             'Trusted: strict parsed-vs-parsed tree comparison (keyword fields folded, implicit/class/bridge invocation node '
             'classes merged), the row synthesiser.', 'DESIGN.md 3 C05'),
     'C06': ('Hypothesis fixtures of C05; validity predicates computed by the harness from printer spans, a scoping/typing walk over the generated AST and its own multiplicity/uniqueness counter',
             'After prebuild the harness counts multiplicity and uniqueness violations itself over the ooaofooa schema, checks '
-            'subtype counts, the persisted R661 / R816 / R604 references against source order, statement and value positions '
+            'subtype counts, the persisted R661 / R816 (invocation parameters and event data) / R604 references against source order, statement and value positions '
             'against printer spans, variable-to-block relations against a scoping walk, and R820/R848 types against a typing walk.',
-            'Trusted: printer spans, Scopes/Expect walk in pbt/c06_prebuild_wf.py, harness reading of bridgepoint/schema.py.', 'DESIGN.md 3 C06'),
+            'Trusted: printer spans, Scopes/Expect walk in pbt/c06_prebuild_wf.py, harness reading of bridgepoint/schema.py. Known finding '
+            '(recorded, excluded by its exact witness, counted): V_EPR.PP_Id null for reads of state machine event data (DESIGN 9.6).', 'DESIGN.md 3 C06, 9.6'),
 })
 CHECKS['C08'] = ('Hypothesis metamorphic relation: re-cased keywords vs lower-case body (parse trees; interpreter result + final population vs reference; prebuilt instance multisets + regenerated text)',
                  'Bodies over every production are parsed in lower case and under a drawn per-occurrence case map (optional words drawn '
